@@ -285,7 +285,21 @@ class Interp:
     def text(self, expr: ast.AST) -> str:
         import copy
 
-        e = _Subst(self.env).visit(copy.deepcopy(expr))
+        e = copy.deepcopy(expr)
+        choice = getattr(self, "_ifexp_choice", None)
+        if choice and any(isinstance(n, ast.IfExp) for n in ast.walk(expr)):
+            # a conditional expression that was decided on this path is rendered as the operand that was chosen
+            picked = {id(c): choice[id(o)] for o, c in zip(ast.walk(expr), ast.walk(e)) if isinstance(o, ast.IfExp) and id(o) in choice}
+
+            class _Pick(ast.NodeTransformer):
+                def visit_IfExp(self, n):
+                    if id(n) in picked:
+                        return self.visit(n.body if picked[id(n)] else n.orelse)
+                    return self.generic_visit(n)
+
+            if picked:
+                e = _Pick().visit(e)
+        e = _Subst(self.env).visit(e)
         ast.fix_missing_locations(e)
         return ast.unparse(e)
 
@@ -318,7 +332,11 @@ class Interp:
             self.bind(expr.target, val)
             return val
         if isinstance(expr, ast.IfExp):
-            if self.cond(expr.test):
+            took = self.cond(expr.test)
+            if not hasattr(self, "_ifexp_choice"):
+                self._ifexp_choice = {}
+            self._ifexp_choice[id(expr)] = took
+            if took:
                 return self.ev(expr.body)
             return self.ev(expr.orelse)
         if isinstance(expr, ast.UnaryOp) and isinstance(expr.op, ast.Not):
@@ -456,10 +474,35 @@ class Interp:
         # evaluation order: callee object, args
         if isinstance(call.func, ast.Attribute):
             self.ev(call.func.value)
-        for a in call.args:
-            self.ev(a)
-        for kw in call.keywords:
-            self.ev(kw.value)
+        # a conditional expression handed over as an argument is decided on this path: the call is read with the chosen operand
+        # (`f(x, size=None if c else N)` is `f(x, size=None)` where c holds), as the statement form `if c: … else: …` would be
+        if any(isinstance(a, ast.IfExp) for a in call.args) or any(isinstance(kw.value, ast.IfExp) for kw in call.keywords):
+            import copy as _copy
+
+            call = _copy.copy(call)
+            call.args = list(call.args)
+            call.keywords = [_copy.copy(kw) for kw in call.keywords]
+            if not hasattr(self, "_ifexp_choice"):
+                self._ifexp_choice = {}
+
+            def pick(a):
+                while isinstance(a, ast.IfExp):
+                    took = self.cond(a.test)
+                    self._ifexp_choice[id(a)] = took
+                    a = a.body if took else a.orelse
+                return a
+
+            for i, a in enumerate(call.args):
+                call.args[i] = a = pick(a)
+                self.ev(a)
+            for kw in call.keywords:
+                kw.value = a = pick(kw.value)
+                self.ev(a)
+        else:
+            for a in call.args:
+                self.ev(a)
+            for kw in call.keywords:
+                self.ev(kw.value)
         text = self.text(call)
         fname = ast.unparse(call.func)
         if fname in ("sys.exit", "exit"):
@@ -515,6 +558,16 @@ class Interp:
         if isinstance(expr, ast.Call) and ast.unparse(expr.func) == "bool" and len(expr.args) == 1:
             return self.cond(expr.args[0])
         val = self.ev(expr)
+        if isinstance(expr, ast.Name) and isinstance(val, Sym):
+            # a local that stores a boolean combination (`needs = not a and not b.startswith(c)`) is tested like the combination
+            # written in place: the same atoms, not one opaque atom
+            try:
+                stored = ast.parse(val.text, mode="eval").body
+            except SyntaxError:
+                stored = None
+            if isinstance(stored, ast.BoolOp) or (isinstance(stored, ast.UnaryOp) and isinstance(stored.op, ast.Not)):
+                if not any(isinstance(n, (ast.NamedExpr, ast.Lambda, ast.Await, ast.Yield)) for n in ast.walk(stored)):
+                    return self.cond(stored)
         return self._truth(val, expr)
 
     def _truth(self, val: Value, node: ast.AST) -> bool:
